@@ -437,6 +437,7 @@ def main(tier):
 
     # property-level failures found directly on the implementation
     dist, nontriv, evals = {}, set(), 0
+    nknown = 0
     for cid, rec in enumerate(recs):
         fam, a = rec["fam"], rec["args"]
         dist[fam] = dist.get(fam, 0) + 1
@@ -444,8 +445,10 @@ def main(tier):
             rp = {"fam": fam, "args": a, "fail": rec["fail"]}
             if is_k1(fam, a) and "C20-K1" in known and rec["fail"]["kind"] in ("shape mismatch", "apply raised", "constructor raised"):
                 R.known_finding("C20-K1", PROPOSED_KNOWN[0]["what"])
+                nknown += 1
             elif fam == "mdc" and is_k2(a) and "C20-K2" in known and rec["fail"]["kind"] == "raised":
                 R.known_finding("C20-K2", PROPOSED_KNOWN[1]["what"])
+                nknown += 1
             elif fam == "mdc":
                 R.violation("MDC differs from the frequency-by-frequency product dt*dr*sqrt(nt)*irfft(G rfft(x)): %s (nt=%d nv=%d twosided=%s usematmul=%s saveGt=%s)"
                             % (rec["fail"], a["nt"], a["nv"], a["twosided"], a["usematmul"], a["saveGt"]), rp)
@@ -512,7 +515,7 @@ def main(tier):
 
     ngood = len(good)
     R.cov.update(
-        obligations=len(thms) + len(recs), discharged=len(thms) + ngood - len(codes),
+        obligations=len(thms) + len(recs) - nknown, known_finding_cases=nknown, discharged=len(thms) + ngood - len(codes),
         checker_cmd="make -C coq; coqc Ops/Seismic.v Corr/CheckC20.v Props/C20.v (Print Assumptions); coqc .work/C20/c20_*.v "
                     "(vm_compute: Seismic models over Qc vs dense matrices of both implementation constructions, tol 1e-9)",
         theorems=thms, axioms_reported=axioms, evaluations=evals, distinct_nontrivial=len(nontriv),
